@@ -37,4 +37,31 @@ theorem replications_cover (n R : Nat) : (List.range R).flatMap (tapeSlice n) = 
 theorem names_distinct (x : String) (R : Nat) : (uniqNames (List.replicate R x)).Nodup :=
   replication_names_distinct x R
 
+/-- **the linear model, by ID** (raw dosages): an effect whose variant the genotypes do not hold adds nothing to any sample's
+    genetic component, wherever it is listed – its beta never lands on another variable -/
+theorem absent_effect_adds_nothing (cols : Cols) (pre post : List (String × Rat)) (x : String) (b : Rat)
+    (hx : cols.lookup x = none) (i : Nat) :
+    genetic cols (pre ++ (x, b) :: post) i = genetic cols (pre ++ post) i :=
+  PhenoSim.absent_effect_adds_nothing cols pre post x b hx i
+
+/-- every effect that is found contributes exactly `β · dosage` of the variant that bears its ID -/
+theorem found_effect_contributes_its_own_dosage (cols : Cols) (x : String) (b : Rat) (rest : List (String × Rat))
+    (hx : (cols.lookup x).isSome) (i : Nat) :
+    genetic cols ((x, b) :: rest) i = b * (dosageAt cols x i : Rat) + genetic cols rest i :=
+  genetic_cons_found cols x b rest hx i
+
+/-- the order in which the effects are listed (`.snplist` order, `.hap` order) does not matter -/
+theorem effect_order_irrelevant (cols : Cols) (pre post : List (String × Rat)) (e f : String × Rat) (i : Nat) :
+    genetic cols (pre ++ e :: f :: post) i = genetic cols (pre ++ f :: e :: post) i :=
+  genetic_swap cols pre post e f i
+
+/-- before fix F32 the code paired betas with the columns that were found *by position*: with `v2` absent, sample 1
+    (dosage 1 at `v1`) got `(1/2 + 1/4)·1` instead of `1/2`; with two of three effects found there was no answer at all -/
+theorem absent_effect_misattributed_before_fix :
+    geneticOld [("v1", [0, 1, 2, 1])] [("v1", 1/2), ("v2", 1/4)] 1 = some (3/4) ∧
+    genetic [("v1", [0, 1, 2, 1])] [("v1", 1/2), ("v2", 1/4)] 1 = 1/2 ∧
+    geneticOld [("v1", [0, 1]), ("v3", [1, 1])] [("v1", 1/2), ("v2", 1/4), ("v3", 1)] 1 = none ∧
+    genetic [("v1", [0, 1]), ("v3", [1, 1])] [("v1", 1/2), ("v2", 1/4), ("v3", 1)] 1 = 3/2 := by
+  decide +kernel
+
 end C09
